@@ -225,6 +225,15 @@ def run(prog, R):
             ng += 1
             go_ = go_ and max(ia) < min(iq)
     R.ob("C07.3-binding-order", "gate: angle parameters are bound before qubit parameters", go_ and ng >= 1, s2s.at, f"{ng} paths of the Gate arm bind both lists")
+    # ---- C07.5 every use is resolved through the diagnosing helpers: SymbolTable::lookup itself reports nothing, so
+    # the translator may reach it only through Context::lookup_symbol / lookup_gate_symbol (who-may-call)
+    cg5 = prog.callgraph()
+    LK5 = "oq3_semantics::symbols::SymbolTable::lookup"
+    callers5 = sorted(k for k, v in cg5.items() if LK5 in v)
+    want5 = sorted(["oq3_semantics::context::Context::lookup_gate_symbol", "oq3_semantics::context::Context::lookup_symbol", "oq3_semantics::symbols::SymbolTable::lookup_or_new_binding"])
+    extra5 = [c for c in callers5 if c not in want5]
+    R.ob("C07.5-lookup-diagnostics", "SymbolTable::lookup is reached only through the diagnosing helpers", not extra5 and len(callers5) >= 2, prog.body(LK5).at if prog.body(LK5) else "",
+         f"callers: {[c.split('::')[-1] for c in callers5]}" if not extra5 else f"{[c.replace('oq3_semantics::', '') for c in extra5]} call SymbolTable::lookup directly: an unresolved name there is not reported as undefined")
     # ---- C07.5 diagnostics at lookup / binding time
     for fn, errk, table_call in ((CTX + "lookup_symbol", "UndefVarError", ST + "lookup"), (CTX + "lookup_gate_symbol", "UndefGateError", ST + "lookup"), (CTX + "new_binding", "RedeclarationError", ST + "new_binding")):
         b = R.anchor(prog, fn)
